@@ -808,7 +808,23 @@ type RaceCase struct {
 	// (-1: created with 0); nano: the generator is created with current = NanoInit
 	InitAheadMs int64 `json:"init_ahead_ms"`
 	NanoInit    int64 `json:"nano_init"`
+	// nano: where the generator's resume value lies relative to the machine's
+	// clock at execution time: "" NanoInit and the script are absolute; "past"
+	// (30 years back), "now", "hour-ahead", "century-ahead": current = that instant
+	// + NanoInit, and the scripted timestamps are offsets from the machine's clock.
+	// The real clock only selects the branch the generator takes; the oracle does
+	// not depend on it.
+	NanoResume string `json:"nano_resume,omitempty"`
+	// nano: call i of goroutine g is GenID() (real clock) where
+	// Mix[(5*g+i) % len(Mix)] is set, GenIDByTS(scripted ts) otherwise
+	Mix []bool `json:"mix,omitempty"`
 }
+
+const (
+	nsHour     = int64(3600) * 1000000000
+	nsYear     = 365 * 24 * nsHour
+	maxRelNano = int64(1) << 55 // bound on relative script values / NanoInit (about 1.1 years)
+)
 
 type script struct {
 	upto []uint64 // segment k covers ticks < upto[k]
@@ -873,7 +889,8 @@ func ExecRace(c RaceCase) *vkit.Result {
 		return res
 	}
 	total := c.G * c.Calls
-	var gen func() int64
+	var gen func(g, i int) int64
+	nanoInit := c.NanoInit
 	var ticks atomic.Uint64
 	var sc *script
 	lay := c.Cfg.layout()
@@ -895,7 +912,7 @@ func ExecRace(c RaceCase) *vkit.Result {
 			if err != nil || node == nil {
 				return res.Failf("race/newnode", "NewMonoNode(%d): %v", c.Cfg.Node, err)
 			}
-			gen = node.Generate
+			gen = func(int, int) int64 { return node.Generate() }
 			break
 		}
 		var why string
@@ -945,12 +962,50 @@ func ExecRace(c RaceCase) *vkit.Result {
 		if err != nil || node == nil {
 			return res.Failf("race/newnode", "NewNode(%d, %d): %v", c.Cfg.Node, last, err)
 		}
-		gen = node.Generate
+		gen = func(int, int) int64 { return node.Generate() }
 	case "nano":
 		var why string
 		if sc, why = c.newScript(); why != "" {
 			res.Skip(why)
 			return res
+		}
+		base := int64(0)
+		if c.NanoResume != "" {
+			// relative mode: everything is an offset from the machine's clock now
+			now := time.Now().UnixNano()
+			if now < 40*nsYear || now > 200*nsYear {
+				res.Skip("real-clock-implausible")
+				return res
+			}
+			base = now
+			switch c.NanoResume {
+			case "past":
+				nanoInit = now - 30*nsYear
+			case "now":
+				nanoInit = now
+			case "hour-ahead":
+				nanoInit = now + nsHour
+			case "century-ahead":
+				nanoInit = now + 100*nsYear
+			default:
+				res.Skip("unknown-resume")
+				return res
+			}
+			if c.NanoInit > maxRelNano || c.NanoInit < -maxRelNano {
+				res.Skip("init-beyond-headroom")
+				return res
+			}
+			nanoInit += c.NanoInit
+			for k, v := range sc.vals {
+				if v > maxRelNano || v < -maxRelNano {
+					res.Skip("ts-beyond-headroom")
+					return res
+				}
+				sc.vals[k] = base + v
+			}
+			res.Class("nano-resume=" + c.NanoResume)
+		} else {
+			res.Class("nano-resume=absolute")
 		}
 		for _, v := range sc.vals {
 			if v > nanoLimit {
@@ -958,12 +1013,36 @@ func ExecRace(c RaceCase) *vkit.Result {
 				return res
 			}
 		}
-		if c.NanoInit > nanoLimit {
+		if nanoInit > nanoLimit {
 			res.Skip("init-beyond-headroom")
 			return res
 		}
-		g := nano.NewUnixNanoID(c.NanoInit)
-		gen = func() int64 { return g.GenIDByTS(sc.at(ticks.Add(1))) }
+		if len(c.Mix) > 64 {
+			res.Skip("invalid-shape")
+			return res
+		}
+		nReal := 0
+		for _, m := range c.Mix {
+			if m {
+				nReal++
+			}
+		}
+		switch {
+		case nReal == 0:
+			res.Class("nano-calls=GenIDByTS")
+		case nReal == len(c.Mix):
+			res.Class("nano-calls=GenID")
+		default:
+			res.Class("nano-calls=mixed")
+		}
+		ng := nano.NewUnixNanoID(nanoInit)
+		mix := c.Mix
+		gen = func(g, i int) int64 {
+			if len(mix) > 0 && mix[(5*g+i)%len(mix)] {
+				return ng.GenID()
+			}
+			return ng.GenIDByTS(sc.at(ticks.Add(1)))
+		}
 	default:
 		res.Skip("unknown-kind")
 		return res
@@ -988,7 +1067,7 @@ func ExecRace(c RaceCase) *vkit.Result {
 			<-gate
 			for i := range mine {
 				s := ticks.Add(1)
-				id := gen()
+				id := gen(g, i)
 				e := ticks.Add(1)
 				mine[i] = rec{start: s, end: e, id: id, g: g, i: i}
 			}
@@ -1002,8 +1081,8 @@ func ExecRace(c RaceCase) *vkit.Result {
 		return res.Failf(site, "%s", msg)
 	}
 	if c.Kind == "nano" {
-		if byID[0].id <= c.NanoInit {
-			return res.Failf("race/not-above-initial", "nano: id %d is not above the current id %d the generator was created with", byID[0].id, c.NanoInit)
+		if byID[0].id <= nanoInit {
+			return res.Failf("race/not-above-initial", "nano: id %d is not above the current id %d the generator was created with", byID[0].id, nanoInit)
 		}
 	} else {
 		for _, r := range all {
@@ -1088,7 +1167,7 @@ func judgeOrder(kind string, recs [][]rec) (all, byID []rec, overlaps int, site,
 
 func GenRace(t *rapid.T) RaceCase {
 	c := RaceCase{InitAheadMs: -1}
-	c.Kind = rapid.SampledFrom([]string{"hard", "hard", "hard", "mono", "nano"}).Draw(t, "kind")
+	c.Kind = rapid.SampledFrom([]string{"hard", "nano", "hard", "mono", "nano", "hard"}).Draw(t, "kind")
 	c.G = rapid.SampledFrom([]int{4, 2, 8, 3, 16}).Draw(t, "g")
 	c.Calls = rapid.SampledFrom([]int{50, 300, 1000, 3000}).Draw(t, "calls")
 	c.Procs = rapid.SampledFrom([]int{2, 4, 8}).Draw(t, "procs")
@@ -1152,19 +1231,43 @@ func GenRace(t *rapid.T) RaceCase {
 		c.Cfg = genCfg(t, false)
 	case "nano":
 		genSegs(1000000000, 1<<40)
-		c.Start = rapid.Int64Range(math.MinInt64/2, nanoLimit/2).Draw(t, "startNs")
-		c.NanoInit = c.Start + rapid.Int64Range(-1000, 1000).Draw(t, "initRel")
+		c.NanoResume = rapid.SampledFrom([]string{"hour-ahead", "century-ahead", "now", "past", ""}).Draw(t, "resume")
+		if c.NanoResume == "" {
+			c.Start = rapid.Int64Range(math.MinInt64/2, nanoLimit/2).Draw(t, "startNs")
+			c.NanoInit = c.Start + rapid.Int64Range(-1000, 1000).Draw(t, "initRel")
+		} else {
+			c.Start = rapid.Int64Range(-2*nsHour, 2*nsHour).Draw(t, "startRelNs")
+			c.NanoInit = rapid.Int64Range(-1000, 1000).Draw(t, "initRel")
+		}
+		switch rapid.IntRange(0, 4).Draw(t, "mixKind") {
+		case 0:
+			c.Mix = []bool{true} // GenID only
+		case 1:
+			c.Mix = nil // GenIDByTS only
+		case 2:
+			c.Mix = []bool{true, false}
+		default:
+			c.Mix = rapid.SliceOfN(rapid.Bool(), 2, 8).Draw(t, "mix")
+		}
 	}
 	return c
 }
 
-const ruleRace = "G: one generator (HardNode on a scripted clock via VerifSetNow / MonoNode on the real clock / UnixNanoID fed from a scripted timestamp source) shared by 2,3,4,8,16 goroutines, " +
+const ruleRace = "G: one generator (HardNode on a scripted clock via VerifSetNow / MonoNode on the real clock / UnixNanoID created with a resume value 30 years back, now, one hour or 100 years ahead of the machine clock (or absolute), called through a drawn per-call mix of GenID() and GenIDByTS(scripted ts)) shared by 2,3,4,8,16 goroutines, " +
 	"50-3000 calls each, GOMAXPROCS 2/4/8; the scripted value is a function of one global atomic tick counter (1-10 segments: rewind, 0, +1, +small, +jump; 1..30000 ticks each) and every call is bracketed " +
 	"by ticks of the same counter. O: all ids distinct; each goroutine's ids strictly increasing; call a returned before call b started => id_a < id_b (sweep over intervals); node field; " +
-	"HardNode timestamp >= the least clock value handed out during the call's interval. Run from a -race binary. NT: calls of different goroutines overlapped in tick time."
+	"HardNode timestamp >= the least clock value handed out during the call's interval; nano ids above the resume value. Part race-shared runs from a -race binary, part shared-plain is the same generator and oracle in the plain binary. NT: calls of different goroutines overlapped in tick time."
 
 var PartRace = vkit.Part[RaceCase]{
 	Property: Property, Name: "race-shared", Rule: ruleRace,
 	Quick: 120, Thorough: 1000,
+	Gen: GenRace, Exec: ExecRace,
+}
+
+// PartSharedPlain is the twin of PartRace in the plain (non -race) binary: the
+// same cases judged by the oracle alone, at full speed.
+var PartSharedPlain = vkit.Part[RaceCase]{
+	Property: Property, Name: "shared-plain", Rule: ruleRace,
+	Quick: 300, Thorough: 1500,
 	Gen: GenRace, Exec: ExecRace,
 }
